@@ -31,9 +31,46 @@ def _richardson(f, x, h):
     return (4 * d2 - d1) / 3
 
 
+def _successors(rep, spec, R):
+    """short-lived components in quick succession (a scan that builds one candidate per iteration): each one dies before the
+    next is built - CPython hands the freed addresses out again at once - and each is FIRST asked for its latent heat at the
+    same temperature.  Every answer is that component's own R T^2 dlnPsat/dT."""
+    import gc
+    import random
+
+    rng = random.Random(f"C13:successors:{spec['seed']}:{spec['shard']}")
+    reused = 0
+    for round_ in range(40):
+        tg = rng.choice(gen.TEMPERATURE_GRID)
+        last_ids = None
+        for k in range(6):
+            comp = gen.synth_component(rng, "S")
+            v = comp.vapour_pressure_constants
+            ids = (id(comp), id(v))
+            reused += int(ids == last_ids)
+            last_ids = ids
+            if v.type == "antoine" and abs(tg + v.c) <= 20:
+                del comp, v
+                continue
+            case = {"index": f"successors-{round_}-{k}", "component": gen.describe_component(comp), "T": tg}
+            try:
+                hv = comp.get_vaporisation_heat(tg)
+                ref = R * tg * tg * _richardson(lambda x: math.log(comp.get_vapor_pressure(x)), tg, H) / 1000
+                noise = 256 * 2.0**-52 * (1 + abs(math.log(comp.get_vapor_pressure(tg)))) / H * R * tg * tg / 1000
+                rep.check("Hvap = R T^2 dlnPsat/dT", abs(hv - ref), 1e-9 * abs(ref) + noise, case, {"got": hv, "ref": ref})
+            except Exception as e:
+                rep.violation("valid call raised", case, {"error": repr(e)})
+            del comp, v
+            gc.collect(0)
+    rep.count("successor_components_at_a_reused_address", reused)
+
+
 def run_shard(spec, rep):
     from pyvaporation.components import Components
     from pyvaporation.utils import R
+
+    if spec.get("only") is None:
+        _successors(rep, spec, R)
 
     only = spec.get("only")
     for index in range(spec["n"]):
